@@ -61,6 +61,12 @@ class Identity:
                     break
             if len(set(objs)) != 1:
                 rec.violation('same-entity-set', f'{label}: {len(objs)} objects denoting {key} do not collapse in a set')
+            try:
+                other = (objs[0] == key) is True or (objs[0] != None) is not True or objs[0] in ('x', None, 0)  # noqa: E711
+            except Exception as exc:
+                other = f'{type(exc).__name__}: {exc}'
+            if other:
+                rec.violation('different-entities-equal', f'{label}: {key} compared with something that is not an entity: {other}')
         r = random.Random(len(keys))
         for _ in range(min(400, len(keys) * 3)):
             (k1, i1), (k2, i2) = r.choice(keys), r.choice(keys)
